@@ -625,6 +625,103 @@ fn main() {
             }
             println!("ok centroid contributions");
         }
+        "polygon_distance" => {
+            use geo::{Distance, Euclidean};
+            use geo_types::{LineString, Polygon};
+            let sq = |x0: f64, y0: f64, x1: f64, y1: f64| -> LineString<f64> { vec![(x0, y0), (x1, y0), (x1, y1), (x0, y1), (x0, y0)].into() };
+            // a polygon without holes inside the hole of another: the distance is to the hole ring
+            let outer = Polygon::new(sq(0.0, 0.0, 20.0, 20.0), vec![sq(5.0, 5.0, 15.0, 15.0)]);
+            let inner = Polygon::new(sq(9.0, 9.0, 11.0, 12.0), vec![]);
+            let (d1, d2) = (Euclidean.distance(&outer, &inner), Euclidean.distance(&inner, &outer));
+            if d1 != 3.0 || d2 != 3.0 {
+                fail(format!("polygon inside another polygon's hole: distances {d1} / {d2}, expected 3"));
+            }
+            // both with holes, side by side: shell to shell
+            let left = Polygon::new(sq(0.0, 0.0, 10.0, 10.0), vec![sq(4.0, 4.0, 6.0, 6.0)]);
+            let right = Polygon::new(sq(12.0, 0.0, 22.0, 10.0), vec![sq(16.0, 4.0, 18.0, 6.0)]);
+            if Euclidean.distance(&left, &right) != 2.0 || Euclidean.distance(&right, &left) != 2.0 {
+                fail("two polygons with holes side by side: expected 2".to_string());
+            }
+            // open line strings whose closest approach is at the FIRST / LAST vertex of one of them
+            let bar: LineString<f64> = vec![(0.0, 0.0), (10.0, 0.0)].into();
+            let stem: LineString<f64> = vec![(5.0, 2.0), (5.0, 6.0), (8.0, 10.0)].into();
+            let mets: LineString<f64> = vec![(8.0, 10.0), (5.0, 6.0), (5.0, 2.0)].into();
+            for (a, b) in [(&bar, &stem), (&stem, &bar), (&bar, &mets), (&mets, &bar)] {
+                let d = Euclidean.distance(a, b);
+                if d != 2.0 {
+                    fail(format!("line strings {:?} / {:?}: distance {d}, expected 2", a.0, b.0));
+                }
+            }
+            println!("ok polygon distance");
+        }
+        "quick_hull_extremes" => {
+            use geo::convex_hull::quick_hull;
+            // every ordering of a fixed point set (so every position of the least / greatest point)
+            let base: [(i64, i64); 6] = [(0, 0), (10, 0), (5, 5), (5, -5), (5, 1), (4, 0)];
+            let mut want: Vec<(i64, i64)> = vec![(0, 0), (10, 0), (5, 5), (5, -5)];
+            want.sort();
+            let mut idx = [0usize, 1, 2, 3, 4, 5];
+            let mut count = 0;
+            // Heap's algorithm
+            let mut cst = [0usize; 6];
+            let mut check = |idx: &[usize; 6]| {
+                let mut pts: Vec<Coord<i64>> = idx.iter().map(|&k| c(base[k].0, base[k].1)).collect();
+                let hull = quick_hull(&mut pts);
+                let mut got: Vec<(i64, i64)> = hull.0[..hull.0.len() - 1].iter().map(|p| (p.x, p.y)).collect();
+                got.sort();
+                if got != want || hull.0.first() != hull.0.last() {
+                    fail(format!("quick_hull of {:?} (in this order) = {:?}", idx.iter().map(|&k| base[k]).collect::<Vec<_>>(), hull.0));
+                }
+            };
+            check(&idx);
+            let mut i = 0;
+            while i < 6 {
+                if cst[i] < i {
+                    if i % 2 == 0 {
+                        idx.swap(0, i);
+                    } else {
+                        idx.swap(cst[i], i);
+                    }
+                    check(&idx);
+                    count += 1;
+                    cst[i] += 1;
+                    i = 0;
+                } else {
+                    cst[i] = 0;
+                    i += 1;
+                }
+            }
+            println!("ok quick hull extremes ({} orderings)", count + 1);
+        }
+        "relate_units" => {
+            use geo::coordinate_position::CoordPos;
+            use geo::dimensions::Dimensions;
+            use geo::Relate;
+            use geo_types::{LineString, MultiLineString, Point, Polygon};
+            // mod-2 rule: an end point shared by two members is interior, by three it is boundary again
+            let seg = |x: f64, y: f64| -> LineString<f64> { vec![(1.0, 0.0), (x, y)].into() };
+            let p = Point::new(1.0, 0.0);
+            let two = MultiLineString(vec![seg(0.0, 0.0), seg(2.0, 0.0)]);
+            let three = MultiLineString(vec![seg(0.0, 0.0), seg(2.0, 0.0), seg(1.0, 5.0)]);
+            let four = MultiLineString(vec![seg(0.0, 0.0), seg(2.0, 0.0), seg(1.0, 5.0), seg(1.0, -5.0)]);
+            for (g, on_boundary) in [(&two, false), (&three, true), (&four, false)] {
+                let m = g.relate(&p);
+                let (b, i) = (m.get(CoordPos::OnBoundary, CoordPos::Inside), m.get(CoordPos::Inside, CoordPos::Inside));
+                let ok = if on_boundary { b == Dimensions::ZeroDimensional && i == Dimensions::Empty } else { b == Dimensions::Empty && i == Dimensions::ZeroDimensional };
+                if !ok {
+                    fail(format!("{} line ends meeting in a point: boundary/interior entries {:?}/{:?}", g.0.len(), b, i));
+                }
+            }
+            // edge-end order around a node decided by an orientation whose exact value is +1 at magnitude 2^54
+            let k = 134217728.0f64;
+            let tri = Polygon::new(LineString::from(vec![(0.0, 0.0), (k + 1.0, k), (0.0, 2.0 * k), (0.0, 0.0)]), vec![]);
+            let b: LineString<f64> = vec![(0.0, 0.0), ((k + 2.0) / 2.0, (k + 1.0) / 2.0)].into();
+            let m = b.relate(&tri);
+            if m.get(CoordPos::Inside, CoordPos::Inside) != Dimensions::OneDimensional || m.get(CoordPos::Inside, CoordPos::Outside) != Dimensions::Empty {
+                fail(format!("segment leaving a triangle vertex into its interior: matrix {:?}", m));
+            }
+            println!("ok relate units");
+        }
         _ => {
             eprintln!("unknown op {op}");
             std::process::exit(4);
